@@ -52,7 +52,7 @@ theorem writtenRows_reps (c : Writer.Col) : ∀ (ps : List PageRec), (∀ r ∈ 
     have hrows := decodedOf_rowsS c r hr
     rw [writtenRows_cons, List.map_append, ih (fun x hx => h x (List.mem_cons_of_mem _ hx))]
     unfold rowsOfPage
-    rw [map_rep_pageRows _ _ _ _ (by rw [hp.2.1]; exact Nat.le_refl _), ← hp.2.1, List.take_length]
+    rw [map_rep_pageRows _ _ _ _ (by rw [hp.1]; exact Nat.le_refl _), ← hp.1, List.take_length]
     by_cases hm : c.maxRep > 0
     · simp only [cursorPage, decodedOf, if_pos hm, List.map_cons, List.flatten_cons]
     · simp only [cursorPage, decodedOf, if_neg hm, Carquet.Proofs.ReaderChunkRoundtrip.sumRows, List.map_cons,
